@@ -61,7 +61,7 @@ func init() {
 			{ID: "R03.4", Title: "EOF test dominates every successful return of Parse", Floor: 1, Run: ruleR034},
 			{ID: "R03.5", Title: "token consumption discipline: every Next() is justified by a Peek test or its token is checked before success", Floor: 35, Run: ruleR035},
 			{ID: "R03.6", Title: "implicit multiplication bookkeeping only in comfort mode", Floor: 3, Run: ruleR036},
-			{ID: "R03.7", Title: "the parser is purely constructive: grouping never depends on the node kind of an already parsed operand (parentheses are honoured)", Floor: 2, Run: ruleR037},
+			{ID: "R03.7", Title: "the parser is purely constructive: grouping never depends on the node kind of an already parsed operand (parentheses are honoured)", Floor: 1, Run: ruleR037},
 			{ID: "R04.8", Title: "input is never silently truncated: the end-of-input mark cannot be forged by a character of the input (see C04)", Floor: 1, Run: ruleR048},
 		},
 	})
